@@ -6,7 +6,8 @@
 
   Parameters (external calls, std-lib):
     * `expiresTime` : the result of time.Parse("Mon, 02 Jan 2006 15:04:05 MST", Expires).Unix()
-    * `decode`      : json.Unmarshal of the body into `struct{ NewAddress string "m.server" }`
+    * `decode`      : json.Unmarshal of the body into a map and of its member `m.server` into a string
+                      (`decodeDoc` on the parsed document: syntax is encoding/json's, trusted)
     * `now`         : time.Now().Unix()
 -/
 import VModel.Json
@@ -20,7 +21,7 @@ def maxSize : Nat := 51200
 structure Reply where
   status : Nat
   contentLength : Str      -- resp.Header.Get("Content-Length"), "" when absent
-  cacheControl : Str       -- resp.Header.Get("Cache-Control")
+  cacheControl : List Str  -- resp.Header.Values("Cache-Control"): one entry per header line
   expires : Str            -- resp.Header.Get("Expires")
   body : Bytes             -- everything resp.Body yields
   deriving Repr
@@ -83,6 +84,12 @@ def splitEq : Str → Str → Option (Str × Str)
   | [], _ => none
   | c :: rest, acc => if c == '=' then some (acc.reverse, rest) else splitEq rest (c :: acc)
 
+/-- strings.Join(lines, ",") -/
+def joinComma : List Str → Str
+  | [] => []
+  | [l] => l
+  | l :: rest => l ++ ',' :: joinComma rest
+
 def lower (c : Char) : Char := if 65 ≤ c.toNat && c.toNat ≤ 90 then Char.ofNat (c.toNat + 32) else c
 
 /-- strings.EqualFold(s, "max-age"): no character outside ASCII folds to a letter of "max-age" -/
@@ -104,9 +111,40 @@ def applyCacheControl (now : Int) : List Str → Int → Int
       else applyCacheControl now rest expiry
     | none => applyCacheControl now rest expiry
 
+/-- `cacheControlHeader := strings.Join(resp.Header.Values("Cache-Control"), ",")` -/
 def expiryOf (r : Reply) (now : Int) (expiresTime : Option Int) : Int :=
   let e0 : Int := if !r.expires.isEmpty then (match expiresTime with | some t => t | none => 0) else 0
-  if !r.cacheControl.isEmpty then applyCacheControl now (splitComma r.cacheControl []) e0 else e0
+  let cc := joinComma r.cacheControl
+  if !cc.isEmpty then applyCacheControl now (splitComma cc []) e0 else e0
+
+/-- the key of the member a well-known document delegates with -/
+def mServerKey : Bytes := [0x6D, 0x2E, 0x73, 0x65, 0x72, 0x76, 0x65, 0x72]    -- "m.server"
+
+/-- the values of the members whose key is EXACTLY `m.server` (after unescaping), in document order; a key
+    that merely folds to it (`M.SERVER`, `m.ſerver`) is another key -/
+def mServerMembers (kvs : List (Bytes × Bytes × Json.PVal)) : List Json.PVal :=
+  (kvs.filter (fun kv => kv.2.1 == mServerKey)).map (fun kv => kv.2.2)
+
+/-- `json.Unmarshal(body, &document)` with `document map[string]json.RawMessage`, then
+    `json.Unmarshal(document["m.server"], &newAddress)`, on a parsed body: a top-level `null` leaves the map
+    nil; any other non-object is an error; of several members named `m.server` the map keeps the last; a
+    string is stored, `null` leaves the address empty, anything else is an error. -/
+def decodeLast : Option Json.PVal → Decoded
+  | none => .ok []
+  | some (.str _ dec) => .ok dec
+  | some .null => .ok []
+  | some _ => .error
+
+def decodeDoc : Json.PVal → Decoded
+  | .null => .ok []
+  | .obj kvs => decodeLast (mServerMembers kvs).getLast?
+  | _ => .error
+
+/-- the decoder LookupWellKnown applies to the bytes it read, given encoding/json's syntax as `parse` -/
+def decodeBody (parse : Bytes → Option Json.PVal) (body : Bytes) : Decoded :=
+  match parse body with
+  | none => .error
+  | some p => decodeDoc p
 
 def lookup (r : Reply) (now : Int) (expiresTime : Option Int) (decode : Bytes → Decoded) : Except WKErr Result :=
   if r.status != 200 then .error .status
@@ -140,11 +178,31 @@ def maxAgeOf (directive : Str) : Option Int :=
 def maxAge (cacheControl : Str) : Option Int :=
   ((splitComma cacheControl []).filterMap maxAgeOf).getLast?
 
+/-- the max-age a reply announces: the last well-formed max-age directive of its Cache-Control header
+    lines taken together (several lines of a list-valued header are one list: RFC 9110 §5.3) -/
+def maxAgeLines (lines : List Str) : Option Int :=
+  ((lines.flatMap (fun l => splitComma l [])).filterMap maxAgeOf).getLast?
+
 /-- C16: the cache lifetime is taken from max-age in preference to Expires (0 = no lifetime given) -/
 def lifetime (r : Reply) (now : Int) (expiresTime : Option Int) : Int :=
-  match maxAge r.cacheControl with
+  match maxAgeLines r.cacheControl with
   | some age => wrap64 (age + now)
   | none => if r.expires.isEmpty then 0 else expiresTime.getD 0
+
+/-- C16: "names an m.server".  What a parsed document delegates to: `some addr` when it is an object with
+    ONE member named exactly `m.server` whose value is a non-empty string; `none` when it names none.
+    Documents with several members named `m.server` are outside the quantifier (`dupServer`): JSON leaves
+    their meaning open. -/
+def namesServer : Json.PVal → Option Bytes
+  | .obj kvs =>
+    match mServerMembers kvs with
+    | [.str _ dec] => if dec.isEmpty then none else some dec
+    | _ => none
+  | _ => none
+
+def dupServer : Json.PVal → Bool
+  | .obj kvs => (mServerMembers kvs).length > 1
+  | _ => false
 
 end Spec
 
